@@ -38,11 +38,11 @@ type tick struct {
 }
 
 type c14Case struct {
-	Msgs   []msgSpec `json:"msgs"`
-	Setup  []op      `json:"setup"`
-	ReqCap int       `json:"reqcap"`
-	Ticks  []tick    `json:"ticks"`
-	FaultAt int      `json:"faultat,omitempty"` // k > 0: from tick k-1 on the VAA store fails every call (closed handle, dead disk)
+	Msgs    []msgSpec `json:"msgs"`
+	Setup   []op      `json:"setup"`
+	ReqCap  int       `json:"reqcap"`
+	Ticks   []tick    `json:"ticks"`
+	FaultAt int       `json:"faultat,omitempty"` // k > 0: from tick k-1 on the VAA store fails every call (closed handle, dead disk)
 }
 
 type entryModel struct {
